@@ -115,16 +115,20 @@ class LoopSpec:
     modifies: list of Ty (heap types) / (cls, field) havocked; var_types: name->Ty for havoc;
     variant(ctx)->z3 Int optional."""
 
-    def __init__(self, inv, modifies=(), var_types=None, variant=None, fingerprint=None, ghost=None):
+    def __init__(self, inv, modifies=(), var_types=None, variant=None, fingerprint=None, ghost=None,
+                 allocates=False):
         self.inv, self.modifies, self.var_types = inv, list(modifies), dict(var_types or {})
         self.variant, self.fingerprint = variant, fingerprint
         self.ghost = ghost
+        self.allocates = allocates   # the body may create objects: the allocation counter is havocked upwards
 
 
 class LoopCtx:
     def __init__(self, interp, env, done=None, member=None, elem=None):
         self.interp, self.path, self.env, self.done, self.member, self.elem = \
             interp, interp.path, env, done, member, elem
+        # frames of the enclosing invariant loops (outermost first): dicts with ordinal, done, x, state, env
+        self.outer = list(interp.path.ghost.get("__loopframes__", []))
 
     @property
     def st(self):
@@ -787,6 +791,10 @@ class Interp:
                 p.ghost[m] = self.model.havoc_ghost(self, m)
             else:
                 p.havoc_heap_type(m, "loop")
+        if getattr(spec, "allocates", False):
+            a0 = p.alloc
+            p.alloc = z3.Int(p.fresh_name("alloc"))
+            p.assume(p.alloc >= a0)
 
     def invariant_loop(self, spec: LoopSpec, ordinal, s, env, it):
         """Classic invariant rule.  `it` is None for while, else the iterable description
@@ -799,8 +807,13 @@ class Interp:
             done0 = z3.K(es, z3.BoolVal(False))
         ctx0 = LoopCtx(self, env, done0, it.member if is_for else None)
         p.oblige(f"loop{ordinal}.inv-init", _zb(spec.inv(ctx0)), self.where(s), "loop-init")
+        # a live dict/set/list iterated by the loop: its content at loop entry
+        live0 = (it.live, p.content(it.live)) if is_for and it.live is not None else None
         # arbitrary iteration
         self.havoc_for_loop(spec, s.body, env, assigned_names([s.target]) if is_for else ())
+        if live0 is not None:
+            # inductive hypothesis of the obligation below: no earlier iteration changed the iterated container
+            p.assume(p.content(live0[0]) == live0[1])
         done = None
         if is_for:
             done = z3.Array(p.fresh_name("done"), es, z3.BoolSort())
@@ -832,13 +845,22 @@ class Interp:
         if more:
             if is_for:
                 p.ghost["__loopvars__"] = p.ghost.get("__loopvars__", []) + [(x, it)]
+            frames = list(p.ghost.get("__loopframes__", []))
+            p.ghost["__loopframes__"] = frames + [{"ordinal": ordinal, "done": done, "x": x if is_for else None,
+                                                   "state": p.snapshot_state(), "env": env}]
             try:
                 try:
                     self.exec_block(s.body, env)
                 except _Continue:
                     pass
             except _Break:
+                p.ghost["__loopframes__"] = frames
                 return  # leaves the loop with whatever state; code after loop runs
+            p.ghost["__loopframes__"] = frames
+            if live0 is not None:
+                # Python raises (dict/set) or misbehaves (list) when the iterated container changes
+                p.oblige(f"loop{ordinal}.live-iteration-unmodified", p.content(live0[0]) == live0[1], self.where(s),
+                         "live-iter")
             if is_for:
                 ctx2 = LoopCtx(self, env, z3.Store(done, x, True), it.member, x)
             else:
@@ -949,8 +971,9 @@ class Interp:
         return None
 
     class IterDescr:
-        def __init__(self, elem_ty, member, distinct, live=None, wrap=None):
+        def __init__(self, elem_ty, member, distinct, live=None, wrap=None, origin=None):
             self.elem_ty, self.member, self.distinct, self.live, self.wrap = elem_ty, member, distinct, live, wrap
+            self.origin = origin      # ("items"|"keys"|"set", ref, content) when the source is a dict/set view
 
         def elem(self, interp, x):
             v = interp.path.project(self.elem_ty, x)
@@ -960,12 +983,13 @@ class Interp:
         p = self.path
         v = self.deref(v)
         if isinstance(v, Snapshot):
-            return Interp.IterDescr(v.elem_ty, v.member, v.distinct, wrap=getattr(v, "wrap", None))
+            return Interp.IterDescr(v.elem_ty, v.member, v.distinct, wrap=getattr(v, "wrap", None),
+                                    origin=getattr(v, "origin", None))
         if isinstance(v, SymIter):
             return Interp.IterDescr(v.elem_ty, v.member, v.distinct, wrap=v.extra.get("wrap"))
         if isinstance(v, LiveView):
             s = self.view_snapshot(v)
-            return Interp.IterDescr(s.elem_ty, s.member, s.distinct, live=v.ref)
+            return Interp.IterDescr(s.elem_ty, s.member, s.distinct, live=v.ref, origin=getattr(s, "origin", None))
         if isinstance(v, SV) and isinstance(v.ty, (TDict, TSet)):
             s = self.view_snapshot(LiveView(v, "keys"))
             return Interp.IterDescr(s.elem_ty, s.member, s.distinct, live=v)
@@ -1220,6 +1244,8 @@ class Interp:
                 if coll is None:
                     self.raise_("TypeError", "argument of type 'NoneType' is not iterable", node=node)
                 ty = coll.ty
+            if x is None and isinstance(ty, (TDict, TSet)) and not isinstance(ty.k, TOpt):
+                return False      # `None in c` for a container whose keys are never None (typing invariant of c)
             if isinstance(ty, TDict):
                 os_ = option_sort(ty.v.sort())
                 return z3.Not(os_.is_none(z3.Select(p.content(coll), self.key_inject(ty.k, x))))
